@@ -362,7 +362,7 @@ func (x *fnv) execSwitch(s *State, st *ast.SwitchStmt) (out flows) {
 	var ends []*State
 	rest := s
 	var defaultClause *ast.CaseClause
-	for _, cc := range st.Body.List {
+	for ci, cc := range st.Body.List {
 		cl := cc.(*ast.CaseClause)
 		if cl.List == nil {
 			defaultClause = cl
@@ -380,21 +380,31 @@ func (x *fnv) execSwitch(s *State, st *ast.SwitchStmt) (out flows) {
 		cond := c.Or(conds...)
 		s1 := rest.Clone()
 		s1.Assume(cond)
-		f := x.execBlock(s1, cl.Body)
-		ends = append(ends, f.next)
-		out.absorb(flows{cont: f.cont, ret: f.ret, pan: f.pan})
-		for _, b := range f.brk {
-			if b.label == "" {
-				ends = append(ends, b.s)
-			} else {
-				out.brk = append(out.brk, b)
+		// a body ending in `fallthrough` continues with the body of the next clause (and so on)
+		cur := s1
+		for k := ci; k < len(st.Body.List) && cur != nil; k++ {
+			body := st.Body.List[k].(*ast.CaseClause).Body
+			falls := hasFallthrough(body)
+			if falls {
+				body = body[:len(body)-1]
 			}
+			f := x.execBlock(cur, body)
+			out.absorb(flows{cont: f.cont, ret: f.ret, pan: f.pan})
+			for _, b := range f.brk {
+				if b.label == "" {
+					ends = append(ends, b.s)
+				} else {
+					out.brk = append(out.brk, b)
+				}
+			}
+			if !falls {
+				ends = append(ends, f.next)
+				break
+			}
+			cur = f.next
 		}
 		rest = rest.Clone()
 		rest.Assume(c.Not(cond))
-		if hasFallthrough(cl.Body) {
-			panic(unsupported("fallthrough"))
-		}
 	}
 	if defaultClause != nil {
 		f := x.execBlock(rest, defaultClause.Body)
